@@ -11,8 +11,8 @@ with repeats), given as list, tuple or array
 
 Proved for every finite sequence of times, any order, any duplicates: scatter with the inverse
 sorting permutation after a sorted sweep returns the i-th value for the i-th time; instantiated for
-_accumulate, cdf and get_epochs. The pinned gather variant is refuted on [2, 1/2, 1] and
-characterised (correct iff the sort is an involution).
+_accumulate, cdf, pdf (two vector cdf calls, PdfVec) and get_epochs. The pinned gather variant is
+refuted on [2, 1/2, 1] and characterised (correct iff the sort is an involution).
 
 This file restates the theorems the property rests on (full statements; proofs are in PGProofs/).
 Generated once by harness/mkprops.py from harness/props_table.py + PGProperties/extra/C07.lean.in; committed as source.
@@ -20,6 +20,7 @@ Generated once by harness/mkprops.py from harness/props_table.py + PGProperties/
 import PGProofs.Glue
 import PGProofs.DemographyThm
 import PGProofs.EndToEnd2
+import PGProofs.PdfVec
 
 set_option linter.all false
 set_option pp.fieldNotation.generalized false
@@ -57,6 +58,24 @@ theorem pinned_correct_only_for_involutions : type_of% @PG.gatherPinned_of_invol
 /-- entry i of a vector cdf call is the labelled cdf at times[i], whatever the other times -/
 theorem end_to_end_cdf_vector : ∀ {D : ℕ} {K : Type} [inst : Field K] [inst_1 : LinearOrder K] [inst_2 : IsStrictOrderedRing K] {m : Model} {cinit : Fin D → ℕ} {ts : ℕ → Fin D → ℚ} {mig : ℕ → Fin D → Fin D → ℚ} {r : ℕ → ℚ} {fuel : ℕ → ℕ} {G : ℕ → Graph}, (∀ (e : ℕ), bfs (transit m (mkEpoch (ts e) (mig e) (r e))) (encLC cinit) (fuel e) = some (G e)) → ∀ (L : ExpLaw K) (n : ℕ) (c0 : Fin D → ℕ) (x0 : Assembly.LabS encLC (G 0).visited (∑ d, cinit d)), cntF (Assembly.LabP.val x0) = c0 → ∀ (eps : List EpochT) (times : List ℚ), (∀ t ∈ times, 0 ≤ t) → ∃ out, EndToEnd.cdfCallK L G n c0 eps times = Except.ok out ∧ List.length out = List.length times ∧ ∀ (i : ℕ) (hi : i < List.length times), List.getD out i 0 = EndToEnd.labCdf L m ts mig G cinit n x0 eps times[i] := @PG.EndToEnd.cdf_call_entry_eq_labelled
 
+/-- pdf(times, dx) = two vector cdf calls at max(t - dx/2, 0) and that + dx: entry i is the difference quotient of the direct cdf at times[i] -/
+theorem pdf_pointwise : ∀ {K : Type} [inst : Field K] [inst_1 : LinearOrder K] [inst_2 : IsStrictOrderedRing K] {ι : Type} [inst_3 : Fintype ι] [inst_4 : DecidableEq ι] (L : ExpLaw K) (S : ℕ → Matrix ι ι K) (α exitVec : ι → K) (eps : List EpochT) (dx : ℚ) (ts : List ℚ), codePdf (codeVectorised (fun fs ↦ cdfVal L S α exitVec (castF fs)) eps) dx ts = List.map (pdfAt (fun t ↦ cdfVal L S α exitVec (castF (specFactors eps t))) dx) ts := @PG.code_pdf_pointwise
+
+/-- any entry of a vector pdf call equals the one-element call for that time -/
+theorem pdf_entry_eq_single : type_of% @PG.code_pdf_entry_eq_single := @PG.code_pdf_entry_eq_single   -- (printed statement does not re-elaborate; see the source lemma)
+
+/-- permuting the supplied times permutes the pdf values the same way -/
+theorem pdf_perm : ∀ {K : Type} [inst : Field K] [inst_1 : LinearOrder K] [inst_2 : IsStrictOrderedRing K] {ι : Type} [inst_3 : Fintype ι] [inst_4 : DecidableEq ι] (L : ExpLaw K) (S : ℕ → Matrix ι ι K) (α exitVec : ι → K) (eps : List EpochT) (dx : ℚ) {ts ts' : List ℚ}, List.Perm ts ts' → List.Perm (codePdf (codeVectorised (fun fs ↦ cdfVal L S α exitVec (castF fs)) eps) dx ts) (codePdf (codeVectorised (fun fs ↦ cdfVal L S α exitVec (castF fs)) eps) dx ts') := @PG.code_pdf_perm
+
+/-- the evaluation points of pdf are never negative -/
+theorem pdf_points_nonneg : ∀ (dx t : ℚ), 0 ≤ pdfX1 dx t := @PG.pdfX1_nonneg
+
+/-- for t >= dx/2 the window is [t - dx/2, t + dx/2] -/
+theorem pdf_window_centred : ∀ (dx t : ℚ), dx / 2 ≤ t → pdfX1 dx t = t - dx / 2 ∧ pdfX2 dx t = t + dx / 2 := @PG.pdf_window_centred
+
+/-- for t <= dx/2 the window is [0, dx] -/
+theorem pdf_window_at_zero : ∀ (dx t : ℚ), t ≤ dx / 2 → pdfX1 dx t = 0 ∧ pdfX2 dx t = dx := @PG.pdf_window_at_zero
+
 /-! ## hand-written part: glue, non-vacuity examples, counterexamples -/
 /-- the statement on a concrete 3-cycle: the repaired scatter returns the values in input order -/
 theorem example_three_cycle : scatterBack [2, 1/2, 1] ((sortRat [2, 1/2, 1]).map fun t => 10 * t) = [20, 5, 10] := by
@@ -74,4 +93,10 @@ end PG.C07
 #print axioms PG.C07.pinned_counterexample
 #print axioms PG.C07.pinned_correct_only_for_involutions
 #print axioms PG.C07.end_to_end_cdf_vector
+#print axioms PG.C07.pdf_pointwise
+#print axioms PG.C07.pdf_entry_eq_single
+#print axioms PG.C07.pdf_perm
+#print axioms PG.C07.pdf_points_nonneg
+#print axioms PG.C07.pdf_window_centred
+#print axioms PG.C07.pdf_window_at_zero
 #print axioms PG.C07.example_three_cycle
